@@ -1,8 +1,10 @@
 /-
   First layer of the bridge between the bitboard `Board` and the rule-book `Rules.Pos`:
-  what `abs` says about single squares.
+  what `abs` says about single squares, under the representation invariant `WFP b`
+  (`= Board.WF b` of Proofs/BoardBasics.lean, the propositional form of `Board.wf b = true`).
 -/
 import ChessVerif.Model.Abs
+import ChessVerif.Proofs.BoardBasics
 
 namespace ChessVerif.Bridge
 open ChessVerif Board Rules
@@ -42,5 +44,146 @@ theorem occ_get (b : Board) (s : Nat) :
 
 theorem abs_empty_occ (b : Board) (s : Nat) : (abs b).empty s = !(b.occ.getLsbD s) := by
   rw [abs_empty, occ_get]; simp [Bool.not_or]
+
+/-! ### the representation invariant as a proposition -/
+
+/-- `WFP b`: the propositional representation invariant (re-used from `Proofs/BoardBasics.lean`). -/
+abbrev WFP (b : Board) : Prop := Board.WF b
+
+theorem WFP_of_wf {b : Board} (h : b.wf = true) : WFP b := (Board.wf_iff b).2 h
+
+theorem wf_of_WFP {b : Board} (h : WFP b) : b.wf = true := (Board.wf_iff b).1 h
+
+theorem wf_of_valid {b : Board} (h : Board.valid b = true) : b.wf = true := by
+  unfold Board.valid at h
+  rw [Bool.and_eq_true] at h
+  exact h.1
+
+theorem rulesValid_of_valid {b : Board} (h : Board.valid b = true) : Rules.valid (abs b) = true := by
+  unfold Board.valid at h
+  rw [Bool.and_eq_true] at h
+  exact h.2
+
+theorem WFP_of_valid {b : Board} (h : Board.valid b = true) : WFP b := WFP_of_wf (wf_of_valid h)
+
+theorem pieceAt_oob (b : Board) (s : Nat) (hs : 64 ≤ s) : b.pieceAt s = Piece.none := by
+  unfold pieceAt
+  rw [Board.vgetD_eq]
+  have : ¬ s < 64 := by omega
+  simp [this]
+
+theorem colorBB_flip_occ (b : Board) (c : Color) (s : Nat) :
+    b.occ.getLsbD s = ((b.colorBB c).getLsbD s || (b.colorBB c.flip).getLsbD s) := by
+  rw [occ_get]
+  cases c <;> simp [Color.flip, Bool.or_comm]
+
+/-- piece sets agree with the per-square map. -/
+theorem WFP.piece_iff {b : Board} (h : WFP b) (s : Nat) (hs : s < 64) (k : Piece) (hk : k ≠ Piece.none) :
+    (b.pieceBB k).getLsbD s = true ↔ b.pieceAt s = k := h.pc s hs k hk
+
+/-- occupied (in either colour set) iff the per-square map shows a piece. -/
+theorem WFP.occ_iff {b : Board} (h : WFP b) (s : Nat) (hs : s < 64) :
+    b.occ.getLsbD s = true ↔ b.pieceAt s ≠ Piece.none := by
+  rw [occ_get, Bool.or_eq_true]; exact h.col s hs
+
+theorem WFP.occ_iff' {b : Board} (h : WFP b) (s : Nat) (hs : s < 64) :
+    (b.colorBB .white ||| b.colorBB .black).getLsbD s = true ↔ b.pieceAt s ≠ Piece.none :=
+  h.occ_iff s hs
+
+/-- the colour sets are disjoint. -/
+theorem WFP.color_disj {b : Board} (h : WFP b) (s : Nat) :
+    ¬ ((b.colorBB .white).getLsbD s = true ∧ (b.colorBB .black).getLsbD s = true) := h.disj_at s
+
+theorem WFP.color_flip_false {b : Board} (h : WFP b) (s : Nat) (c : Color)
+    (hc : (b.colorBB c).getLsbD s = true) : (b.colorBB c.flip).getLsbD s = false := by
+  have := h.disj_at s
+  cases c <;> simp_all [Color.flip]
+
+theorem WFP.color_pieceAt {b : Board} (h : WFP b) (s : Nat) (c : Color)
+    (hc : (b.colorBB c).getLsbD s = true) : b.pieceAt s ≠ Piece.none := by
+  have hs : s < 64 := BitVec.lt_of_getLsbD hc
+  apply (h.occ_iff s hs).1
+  rw [colorBB_flip_occ b c, hc]; rfl
+
+/-! ### the abstraction square by square -/
+
+theorem manAt_eq_some {b : Board} (h : WFP b) (s : Nat) (c : Color) (k : Piece) :
+    b.manAt s = some (c, k) ↔ (b.colorBB c).getLsbD s = true ∧ b.pieceAt s = k := by
+  have hd := h.disj_at s
+  unfold manAt
+  cases hw : (b.colorBB .white).getLsbD s <;> cases hb : (b.colorBB .black).getLsbD s <;>
+    cases c <;> simp_all
+
+theorem abs_at_eq_some {b : Board} (h : WFP b) (s : Nat) (c : Color) (k : Piece) :
+    (abs b).at_ s = some (c, k) ↔ (b.colorBB c).getLsbD s = true ∧ b.pieceAt s = k := by
+  rw [abs_at']; exact manAt_eq_some h s c k
+
+theorem abs_at_eq_none (b : Board) (s : Nat) : (abs b).at_ s = none ↔ b.occ.getLsbD s = false := by
+  have := abs_empty_occ b s
+  unfold Pos.empty at this
+  rw [← Option.isNone_iff_eq_none, this]; simp
+
+/-- the man standing on a square of colour set `c`. -/
+theorem abs_at_of_color {b : Board} (h : WFP b) (s : Nat) (c : Color)
+    (hc : (b.colorBB c).getLsbD s = true) : (abs b).at_ s = some (c, b.pieceAt s) :=
+  (abs_at_eq_some h s c _).2 ⟨hc, rfl⟩
+
+theorem abs_has {b : Board} (h : WFP b) (s : Nat) (c : Color) (k : Piece) :
+    (abs b).has s c k = true ↔ (b.colorBB c).getLsbD s = true ∧ b.pieceAt s = k := by
+  unfold Pos.has
+  rw [beq_iff_eq]; exact abs_at_eq_some h s c k
+
+theorem abs_hasColor {b : Board} (h : WFP b) (s : Nat) (c : Color) :
+    (abs b).hasColor s c = (b.colorBB c).getLsbD s := by
+  have hd := h.disj_at s
+  unfold Pos.hasColor
+  rw [abs_at']
+  unfold manAt
+  cases hw : (b.colorBB .white).getLsbD s <;> cases hb : (b.colorBB .black).getLsbD s <;>
+    cases c <;> simp_all
+
+theorem abs_hasColor_iff {b : Board} (h : WFP b) (s : Nat) (c : Color) :
+    (abs b).hasColor s c = true ↔ (b.colorBB c).getLsbD s = true := by rw [abs_hasColor h]
+
+theorem abs_empty_iff (b : Board) (s : Nat) : (abs b).empty s = true ↔ ¬ b.occ.getLsbD s = true := by
+  rw [abs_empty_occ]; simp
+
+theorem abs_empty_iff' (b : Board) (s : Nat) : (abs b).empty s = true ↔ b.occ.getLsbD s = false := by
+  rw [abs_empty_occ]; simp
+
+/-- set form: membership in `colour ∩ kind` is `has`. -/
+theorem abs_has_set {b : Board} (h : WFP b) (s : Nat) (hs : s < 64) (c : Color) (k : Piece)
+    (hk : k ≠ Piece.none) :
+    (b.colorBB c &&& b.pieceBB k).getLsbD s = true ↔ (abs b).has s c k = true := by
+  rw [BitVec.getLsbD_and, Bool.and_eq_true, h.piece_iff s hs k hk, abs_has h]
+
+/-- `hasColor` unfolds to "some man of that colour stands there". -/
+theorem hasColor_iff_at (p : Pos) (s : Nat) (c : Color) :
+    p.hasColor s c = true ↔ ∃ k, p.at_ s = some (c, k) := by
+  unfold Pos.hasColor
+  cases hp : p.at_ s with
+  | none => simp
+  | some m => obtain ⟨c', k⟩ := m; simp
+
+theorem has_iff_at (p : Pos) (s : Nat) (c : Color) (k : Piece) :
+    p.has s c k = true ↔ p.at_ s = some (c, k) := by
+  unfold Pos.has; rw [beq_iff_eq]
+
+theorem empty_iff_at (p : Pos) (s : Nat) : p.empty s = true ↔ p.at_ s = none := by
+  unfold Pos.empty; rw [Option.isNone_iff_eq_none]
+
+/-! ### the scalar fields -/
+
+@[simp] theorem abs_turn (b : Board) : (abs b).turn = b.stm := rfl
+theorem abs_ep (b : Board) : (abs b).ep = if b.ep = 0 then none else some b.ep := rfl
+theorem abs_ep_eq_some (b : Board) (t : Nat) : (abs b).ep = some t ↔ b.ep ≠ 0 ∧ t = b.ep := by
+  rw [abs_ep]
+  by_cases h : b.ep = 0
+  · simp [h]
+  · simp [h, eq_comm]
+theorem abs_rights_wk (b : Board) : (abs b).rights.wk = b.castles.getLsbD 0 := rfl
+theorem abs_rights_wq (b : Board) : (abs b).rights.wq = b.castles.getLsbD 1 := rfl
+theorem abs_rights_bk (b : Board) : (abs b).rights.bk = b.castles.getLsbD 2 := rfl
+theorem abs_rights_bq (b : Board) : (abs b).rights.bq = b.castles.getLsbD 3 := rfl
 
 end ChessVerif.Bridge
